@@ -1,7 +1,9 @@
 (* C18 — A resolution cache is transparent; documents are fetched at most once. *)
 From Coq Require Import List String Bool Arith.
-From Spec Require Import Base.Json Base.Url Codec.Types Codec.Codec Expand.Expand Expand.ExpandFacts.
+From Spec Require Import Base.Json Base.Url Codec.Types Codec.Gen_Tables Codec.Codec Codec.CodecFacts Expand.Expand Expand.ExpandFacts
+  Expand.ExpandSim Expand.ExpandSimCheck Expand.ExpandCycle Expand.ExpandElem Expand.ExpandCache Expand.ExpandTermG Expand.ExpandComplete Expand.ExpandExample.
 Import ListNotations.
+Local Open Scope string_scope.
 
 (* For every store, every supplied cache c0, every schema, every option setting and every fuel: at any
    point of an expansion — at its end, and also at an error — the documents the loader served were
@@ -27,3 +29,64 @@ Theorem C18_load : forall docs cwd c0 s u, cache_inv docs c0 s ->
   match load docs cwd s u with Done (s', _) => cache_inv docs c0 s' | Failed sf => cache_inv docs c0 sf | _ => True end.
 Proof. exact load_inv. Qed.
 Print Assumptions C18_load.
+
+(* ---------- transparency (Expand/ExpandCache.v) ----------
+   "Supplying a resolution cache never changes a result": two runs of the schema expansion on the same located schema, from
+   states with the same memo of circular references but ARBITRARY caches consistent with the loader (nothing cached,
+   everything pre-loaded, a cache left over from earlier expansions — Inv only says that a cached document is the one
+   the loader serves there), with arbitrary coherent resolver roots (the root a resolver holds depends on what was cached),
+   return the same JSON and the same memo.  For every store, stack, fuel, SkipSchemas/AbsoluteCircularRef setting, strict
+   mode, graph hypotheses as in C02 (decided by check_nodes). *)
+Theorem C18_cache_transparent : forall E docs cwd OP ctx_base rid nodes live,
+  check_nodes E docs cwd OP ctx_base rid nodes = true ->
+  (forall lu ld, live = Some (lu, ld) -> doc_at docs cwd lu = Some ld) ->
+  o_cont OP = false ->
+  forall d s1 s2 parents rr1 rr2 base j s1' s2' j1 j2,
+    GN nodes base j -> Rst docs rid s1 s2 -> Coh cwd rr1 base -> Coh cwd rr2 base ->
+    exp E docs cwd OP ctx_base live d s1 parents rr1 base j = Done (s1', j1) ->
+    exp E docs cwd OP ctx_base live d s2 parents rr2 base j = Done (s2', j2) ->
+    Rst docs rid s1' s2' /\ j1 = j2.
+Proof. exact checked_cache_transparent. Qed.
+Print Assumptions C18_cache_transparent.
+
+(* non-vacuity on the cyclic two-document graph: an empty cache against a cache pre-loaded with both documents, no resolver
+   root against the live root — both runs succeed, hence (by the theorem) with the same result *)
+Definition ex_s_preloaded := mkSt [] ex_docs [] "" false.
+Example C18_example : forall s1' s2' j1 j2,
+  exp gen_env ex_docs "/" (mkOpts false false false) ex_root_url ex_live 8 ex_s0 [] (Some ex_root_url) ex_root_url ex_start = Done (s1', j1) ->
+  exp gen_env ex_docs "/" (mkOpts false false false) ex_root_url ex_live 8 ex_s_preloaded [] None ex_root_url ex_start = Done (s2', j2) ->
+  j1 = j2.
+Proof.
+  intros s1' s2' j1 j2 H1 H2. set (OP := mkOpts false false false).
+  assert (Hck : check_nodes gen_env ex_docs "/" OP ex_root_url "" ex_nodes = true) by (vm_compute; reflexivity).
+  assert (Hlive : forall lu ld, ex_live = Some (lu, ld) -> doc_at ex_docs "/" lu = Some ld) by (intros lu ld E; inversion E; subst; vm_compute; reflexivity).
+  assert (Hg : GN ex_nodes ex_root_url ex_start) by (vm_compute; tauto).
+  assert (HR : Rst ex_docs "" ex_s0 ex_s_preloaded).
+  { split; [split; [intros u d E; discriminate|reflexivity]|split; [split; [intros u d E; exact E|reflexivity]|reflexivity]]. }
+  assert (Hc1 : Coh "/" (Some ex_root_url) ex_root_url) by (intros ru E; inversion E; subst; reflexivity).
+  assert (Hc2 : Coh "/" None ex_root_url) by (intros ru E; discriminate).
+  exact (proj2 (C18_cache_transparent _ _ _ _ _ _ _ _ Hck Hlive eq_refl _ _ _ _ _ _ _ _ _ _ _ _ Hg HR Hc1 Hc2 H1 H2)).
+Qed.
+Example C18_example_runs : (exists s' j', exp gen_env ex_docs "/" (mkOpts false false false) ex_root_url ex_live 8 ex_s0 [] (Some ex_root_url) ex_root_url ex_start = Done (s', j'))
+  /\ (exists s' j', exp gen_env ex_docs "/" (mkOpts false false false) ex_root_url ex_live 8 ex_s_preloaded [] None ex_root_url ex_start = Done (s', j')).
+Proof. split; vm_compute; eexists; eexists; reflexivity. Qed.
+
+(* ... and whether the expansion succeeds does not depend on the cache either: on a graph whose references are all
+   resolvable both runs return a result, and it is the same one *)
+Theorem C18_cache_transparent_total : forall E docs cwd OP ctx_base rid nodes live,
+  check_nodes E docs cwd OP ctx_base rid nodes = true -> check_resolvable E docs cwd OP ctx_base rid nodes = true ->
+  (forall lu ld, live = Some (lu, ld) -> doc_at docs cwd lu = Some ld) ->
+  o_cont OP = false ->
+  forall d s1 s2 parents rr1 rr2 base j,
+    NoDup parents -> List.length (refs_of nodes) < d ->
+    GN nodes base j -> Rst docs rid s1 s2 -> Coh cwd rr1 base -> Coh cwd rr2 base ->
+    exists s1' s2' j', exp E docs cwd OP ctx_base live d s1 parents rr1 base j = Done (s1', j')
+                    /\ exp E docs cwd OP ctx_base live d s2 parents rr2 base j = Done (s2', j').
+Proof.
+  intros E docs cwd OP ctx_base rid nodes live Hck Hres Hlive Hstrict d s1 s2 parents rr1 rr2 base j Hnd Hlen Hg HR Hc1 Hc2.
+  destruct (checked_exp_succeeds E docs cwd OP ctx_base rid nodes live Hck Hres Hlive Hstrict d s1 parents rr1 base j Hnd Hlen Hg (proj1 HR) Hc1) as [s1' [j1 H1]].
+  destruct (checked_exp_succeeds E docs cwd OP ctx_base rid nodes live Hck Hres Hlive Hstrict d s2 parents rr2 base j Hnd Hlen Hg (proj1 (proj2 HR)) Hc2) as [s2' [j2 H2]].
+  destruct (checked_cache_transparent E docs cwd OP ctx_base rid nodes live Hck Hlive Hstrict d s1 s2 parents rr1 rr2 base j s1' s2' j1 j2 Hg HR Hc1 Hc2 H1 H2) as [_ Hj].
+  subst j2. exists s1', s2', j1. split; assumption.
+Qed.
+Print Assumptions C18_cache_transparent_total.
